@@ -234,7 +234,8 @@ Proof.
   unfold ps_ack.
   destruct (c_ack (h_ctl h)) eqn:Eack; cbn [negb]; [|discriminate].
   destruct (st t) eqn:Est;
-    try (destruct (ack_est t h) as [t2 r2] eqn:Ea;
+    try (match goal with |- context [ack_est t h] => idtac end;
+         destruct (ack_est t h) as [t2 r2] eqn:Ea;
          destruct (ack_est_result t h) as [R|R]; rewrite Ea in R; cbn [snd] in R; subst r2;
          repeat break_if; tsimpl; intros H; inversion H; auto; fail).
   - repeat break_if; tsimpl; intros H; inversion H; auto.
@@ -456,7 +457,10 @@ Proof.
     rewrite ?queue_pending_fin_st; tsimpl; auto 6.
 Qed.
 Lemma advance_time_st t dt : st (fst (advance_time t dt)) = st t.
-Proof. unfold advance_time. repeat break_if; reflexivity. Qed.
+Proof.
+  unfold advance_time. destruct (rto t <? dt); tsimpl;
+    destruct (time_wait t) as [tw|]; try destruct (tw <? dt); reflexivity.
+Qed.
 Lemma tcb_send_st t b : st (tcb_send t b) = st t.
 Proof. unfold tcb_send. break_if; reflexivity. Qed.
 Lemma tcb_receive_st t : st (fst (tcb_receive t)) = st t.
